@@ -110,6 +110,7 @@ def zoo():
                       lambda a: dict(size=len(a.result()), members=sorted(a.result()), reviewed=a.num_samples_reviewed),
                       as_array=False, random=True))
   z.append(_mergeable('MeanState', au.MeanState, r1[:3] + r1[4:], lambda a: _norm(a.result())))
+  z.append(_mergeable('TupleMeanState', au.TupleMeanState, [(1.0, 4.0), (2.0, 0.0), (3.5, 1.0), (0.0, 0.0), (5.0, 2.0)], lambda a: _norm(a.result())))
   texts = [('a b a c',), ('b b d',), ('a c',), ('d a b',)]
   z.append(_mergeable('TopKWordNGrams', lambda: tx.TopKWordNGrams(k=3, n=1), texts, lambda a: _norm(a.result()), as_array=False))
   z.append(_mergeable('PatternFrequency', lambda: tx.PatternFrequency(patterns=['a', 'd']), texts, lambda a: _norm(a.result()), as_array=False))
